@@ -36,3 +36,20 @@ Print Assumptions C10_remove.
 Theorem C10_no_leak : no_leak = true.
 Proof. vm_compute. reflexivity. Qed.
 Print Assumptions C10_no_leak.
+
+(* the compile model of the core fragment (Cnl/Core.v, which the C01 check ties byte for byte to the implementation on every generated F0
+   specification) IS such a fold: the program of a text is the program of the text before a sentence, then that sentence's own rules - which
+   depend on the declared concepts only -, then the rules of the remaining sentences; removing the sentence removes exactly its block *)
+Require Import Cnl2aspV.Cnl.Core Cnl2aspV.Cnl.CoreFold.
+Theorem C10_core_fragment_blocks :
+  forall cs l1 x l2,
+  compile (with_sentences cs (l1 ++ x :: l2)) =
+  (compile (with_sentences cs l1) ++ compile_sentence (with_sentences cs []) x ++ flat_map (compile_sentence (with_sentences cs [])) l2)%list.
+Proof. exact core_sentence_blocks. Qed.
+Print Assumptions C10_core_fragment_blocks.
+
+Theorem C10_core_fragment_removal :
+  forall cs l1 l2,
+  compile (with_sentences cs (l1 ++ l2)) = (compile (with_sentences cs l1) ++ flat_map (compile_sentence (with_sentences cs [])) l2)%list.
+Proof. exact core_sentence_removal. Qed.
+Print Assumptions C10_core_fragment_removal.
